@@ -939,3 +939,63 @@ class PoolLoad(Contract):
         ps = [x for x in st.log if x[0] == 'parse']
         I.e.prove('C18/pool-load/the-handle-is-parsed-once-as-FASTA-and-the-filled-pool-returned',
                   z3.BoolVal(len(ps) == 1 and ps[0][1] is st.handle and ps[0][2] == 'fasta' and isinstance(ret, SymObj) and isinstance(ret.fields.get('peptides'), _PepSet18)))
+
+
+# ----------------------------------------------------------------------------
+# the labels summarizeFasta reads from a GVF file
+# ----------------------------------------------------------------------------
+from . import tables as T18
+
+
+@register
+class ParseLabel(Contract):
+    """seqvar.io.parse_label(handle): every line that does not start with '#' yields exactly one triple, in file order: the gene id (column 1), the
+    TRANSCRIPT_ID attribute of the attribute column (column 8, read with parse_attrs) and the variant label (column 3) of that very line"""
+    path, qualname, props = 'moPepGen/seqvar/io.py', 'parse_label', ('C18',)
+    assumptions = ('assumed: every record line of a GVF file has its eight tab-separated columns, none empty (the writer emits them so); parse_attrs is the attribute reader of the C13 round trip',)
+
+    def setup(self, I):
+        st = types.SimpleNamespace(yielded=[])
+        st.tab = T18.Table(I, 8, 'GVF_file')
+        st.args = [st.tab.file]
+        self._cur = st
+        return st
+
+    @property
+    def models(self):
+        c = self
+
+        def inst(reg):
+            class Attrs:
+                def __init__(s_, field):
+                    s_.field = field
+
+                def sym_getitem(s_, I, key):
+                    return ('attribute', key, s_.field)
+            reg.func_('moPepGen/seqvar/io.py', 'parse_attrs', lambda I, a, k: Attrs(a[0]))
+            reg.on_yield = lambda I, frame, v: c._cur.yielded.append(v)
+        return (inst,)
+
+    def head(self, I, env, k):
+        self._cur.mark = len(self._cur.yielded)
+
+    def step(self, I, env, k):
+        st = self._cur
+        new = st.yielded[st.mark:]
+        if not new:
+            return [('a-line-yields-nothing-only-as-a-comment', st.tab.comment(T18.zz(k)))]
+        ok = len(new) == 1 and isinstance(new[0], tuple) and len(new[0]) == 3
+        if not ok:
+            return [('one-triple-per-record-line', False)]
+        g, t, lab = new[0]
+        cv = T18.check_value
+        okt = isinstance(t, tuple) and len(t) == 3 and t[0] == 'attribute' and t[1] == 'TRANSCRIPT_ID' and cv(t[2], k, 7, 'text')
+        return [('a-comment-line-yields-nothing', z3.Not(st.tab.comment(T18.zz(k)))),
+                ('gene-id-is-column-1-label-is-column-3-of-this-line', z3.BoolVal(bool(cv(g, k, 0, 'text') and cv(lab, k, 2, 'text')))),
+                ('transcript-is-the-TRANSCRIPT_ID-attribute-of-column-8-of-this-line', z3.BoolVal(bool(okt)))]
+
+    @property
+    def loops(self):
+        return {0: LoopSpec(inv=lambda I, env, k: [], on_head=self.head, step=self.step, target_after='unknown',
+                            on_break=lambda I, env, k: [('every-line-is-visited', False)],
+                            on_exit=lambda I, env, n: [('all-lines-were-visited', n == self._cur.tab.n)])}
